@@ -358,3 +358,22 @@ def _rng(state):
 
 
 contract('C09.runtime', [WF + ':Wavefront.__init__', WF + ':Wavefront._generate_data'], ['C09'], custom=_bounded)(lambda c: None)
+
+
+def _measure_c09(L):
+    from optiland import wavefront
+    pw = L.primary_wavelength
+    f0 = L.fields.get_field_coords()[-1]
+    wf = wavefront.Wavefront(L, fields=[(0.0, 0.0), f0], wavelengths=[pw], num_rays=6, distribution='hexapolar')
+    out = {}
+    for i in range(2):
+        d = wf.data[i][0]
+        out['opd_field%d' % i] = np.array(d[0], dtype=float)
+        out['intensity_field%d' % i] = np.array(d[1], dtype=float)
+    opd = wavefront.OPD(L, f0, pw, num_rings=6)
+    out['opd_rms'] = np.array([opd.rms()], dtype=float)
+    return out
+
+
+contract('C09.runtime.requery', [WF + ':Wavefront.__init__', WF + ':Wavefront._generate_data', WF + ':Wavefront._get_reference_sphere'], ['C09', 'C13'],
+         custom=rt.requery_custom(_measure_c09, 'C09.runtime.wavefront_of_an_edited_lens_equals_that_of_a_lens_built_with_the_edits'))(lambda c: None)
